@@ -16,6 +16,41 @@ pub fn cmp_flat(a: &Flat, b: &Flat, abs: f64, rel: f64, skip: &dyn Fn(&str) -> b
     cmp_flat_rt(a, b, abs, rel, 1e-4, skip, map_a)
 }
 
+/// Ratio leaves (`rer*`) of a result tree are quotients of the total primary energy: their error is the
+/// energy error divided by the total. Returns None when a total is rounding noise (not comparable), else
+/// the tolerance 1e-4 + 2*tol(mag)/|total|. `nolm`: the leaf belongs to the second configuration of C10.
+pub fn ratio_tolerance(a: &Flat, b: &Flat, mag_a: f64, mag_b: f64, nolm: bool) -> Option<f64> {
+    let pre = if nolm { "nolm." } else { "" };
+    let tot = |f: &Flat| -> f64 {
+        let g = |k: &str| f.get(&format!("{pre}balance.we.b.{k}")).and_then(|l| l.num()).unwrap_or(0.0);
+        g("ren") + g("nren")
+    };
+    let (ta, tb) = (tot(a).abs(), tot(b).abs());
+    if ta <= 1e-3 * mag_a || tb <= 1e-3 * mag_b {
+        return None;
+    }
+    let e = |t: f64, m: f64| 2.0 * (2e-5 * m + 1e-6) / t;
+    Some(1e-4 + e(ta, mag_a).max(e(tb, mag_b)))
+}
+
+/// `cmp_flat` with the ratio policy built in (guard + tolerance derived from the totals of both trees)
+pub fn cmp_flat_m(a: &Flat, b: &Flat, abs: f64, rel: f64, mag_a: f64, mag_b: f64, skip: &dyn Fn(&str) -> bool, map_a: &dyn Fn(&str, f64) -> f64) -> Vec<Diff> {
+    let rt = ratio_tolerance(a, b, mag_a, mag_b, false);
+    let rt_nolm = if a.keys().any(|k| k.starts_with("nolm.")) { ratio_tolerance(a, b, mag_a, mag_b, true) } else { None };
+    let skip2 = |p: &str| {
+        if skip(p) {
+            return true;
+        }
+        if p.starts_with("rer") {
+            return if p.ends_with(".nolm") { rt_nolm.is_none() } else { rt.is_none() };
+        }
+        false
+    };
+    // the larger of the two tolerances is used for all ratio leaves of the pair
+    let t = rt.unwrap_or(1e-4).max(rt_nolm.unwrap_or(1e-4));
+    cmp_flat_rt(a, b, abs, rel, t, &skip2, map_a)
+}
+
 /// as `cmp_flat` with an explicit tolerance for the ratio leaves (`rer*`)
 pub fn cmp_flat_rt(a: &Flat, b: &Flat, abs: f64, rel: f64, ratio_tol: f64, skip: &dyn Fn(&str) -> bool, map_a: &dyn Fn(&str, f64) -> f64) -> Vec<Diff> {
     let mut out = vec![];
